@@ -324,7 +324,7 @@ Print Assumptions C07_system_forwarded_seen_open.
     process) drive it by the labels of Prompt/Model.v / System.v.  Everything below is about
     [itrace] / [ihist] / [ifinal] (child) and [istrace] / [ishist] / [isfinal] (system): what
     the interpreter of the regenerated code does. *)
-From NL Require Import Prompt.Interp Prompt.Tie Prompt.TieSys.
+From NL Require Import Prompt.Interp Prompt.Tie Prompt.TieSys Prompt.TieFactory.
 
 (** THE TIE, child level: for EVERY label sequence the regenerated code and Prompt/Model.v
     produce the same output at every label and end in related states (simulation, by induction
@@ -448,21 +448,30 @@ Proof. exact tie_system_forwarded_seen_open. Qed.
     computed from the history by "emptied at a run start, +pair at OnStartPrompt, -pair at
     OnEndPrompt"; send_pdb_command forwards iff the pair is a member; and membership means:
     started and not ended IN THE CURRENT RUN *)
-Theorem C07_tie_main_open_prompts : forall mls, h_open (mmfinal mls) = spec_open mls.
+Theorem C07_tie_main_open_prompts : forall mls,
+  h_open (mmfinal mls) = spec_open mls /\ MInv (mmfinal mls) (existsb is_run_start mls).
 Proof. exact main_open_prompts. Qed.
 
-Theorem C07_tie_main_forwards_iff_member : forall mls c,
+(** hypothesis "a run has started" added in the hardening round: `assert context.send_command` is
+    now translated as the raising branch it is (next theorem) *)
+Theorem C07_tie_main_forwards_iff_member : forall mls c, existsb is_run_start mls = true ->
   let sh := mmfinal mls in
   if mem (c_trace c, c_prompt c) (spec_open mls)
   then snd (mmstep sh (MApi c)) = Some (MForwarded (h_nsent sh)) /\ h_in (fst (mmstep sh (MApi c))) = h_in sh ++ [(h_nsent sh, c)]
   else snd (mmstep sh (MApi c)) = Some MDropped /\ fst (mmstep sh (MApi c)) = sh.
 Proof. exact main_forwards_iff_member. Qed.
 
+Theorem C07_tie_main_before_first_run_raises : forall mls c, existsb is_run_start mls = false ->
+  snd (mmstep (mmfinal mls) (MApi c)) = Some MRaised /\ fst (mmstep (mmfinal mls) (MApi c)) = mmfinal mls.
+Proof. exact main_before_first_run_raises. Qed.
+
+(** MODEL-DEFINITIONAL (about [spec_open], the history function of Prompt/TieSys.v; no generated
+    term occurs in it): what membership in the set means *)
 Theorem C07_tie_main_set_exact : forall mls t p, In (t, p) (spec_open mls) <-> started_not_ended mls t p.
 Proof. exact spec_open_exact. Qed.
 
-Theorem C07_tie_main_forwards_iff_open_in_current_run : forall mls c,
-  snd (mmstep (mmfinal mls) (MApi c)) = Some (MForwarded (h_nsent (mmfinal mls))) <-> started_not_ended mls (c_trace c) (c_prompt c).
+Theorem C07_tie_main_forwards_iff_open_in_current_run : forall mls c, existsb is_run_start mls = true ->
+  (snd (mmstep (mmfinal mls) (MApi c)) = Some (MForwarded (h_nsent (mmfinal mls))) <-> started_not_ended mls (c_trace c) (c_prompt c)).
 Proof. exact main_forwards_iff_open_in_current_run. Qed.
 
 Theorem C07_tie_main_stale_pair_dropped : forall ls1 ls2 c,
@@ -470,8 +479,10 @@ Theorem C07_tie_main_stale_pair_dropped : forall ls1 ls2 c,
   snd (mmstep (mmfinal (ls1 ++ MRunStart :: ls2)) (MApi c)) = Some MDropped.
 Proof. exact main_stale_pair_dropped. Qed.
 
-(** RunSession.run empties the set before it spawns the child; the queue the main process puts
-    commands on is the one handed to the child as its queue_in *)
+(** PINS (computed booleans / numerals of the generated file, by reflexivity): RunSession.run empties
+    the set before it spawns the child; the queue the main process puts commands on is the one handed
+    to the child as its queue_in.  The EFFECT of the run-start statements is interpreted, not pinned:
+    [run_start_exec] inside C07_tie_main_open_prompts. *)
 Theorem C07_tie_cleared_before_spawn :
   existsb (fun s => match s with SSetClear (EAttr AOpenPrompts) => true | _ => false end) (before_spawn run_tracked) = true /\
   existsb (fun s => match s with SSpawn => true | _ => false end) run_tracked = true.
@@ -479,6 +490,54 @@ Proof. exact cleared_before_spawn. Qed.
 
 Theorem C07_tie_queue_in_wiring : session_in_pos = set_queues_in_pos.
 Proof. exact queue_in_wiring. Qed.
+
+(** START-UP AND SHUT-DOWN of the relay thread, on the regenerated relay_commands (a generator
+    context manager, interpreted with a real try/finally and the None sentinel -- not flattened).
+    Entering Prompt.context() submits exactly try_again_on_error(fn) and stops at the yield; the
+    relay thread of the simulation IS that call. *)
+Theorem C07_tie_boot_submits :
+  exists sh cx, resume FUEL init_shared ctx0 = RAtGet sh cx [ISubmit FnTryAgain [VFun FnFn]] /\ t_k cx = K_ctx /\
+                sh = init_shared /\ at_get (t_k cx) = true.
+Proof. exact boot_submits. Qed.
+
+(** the finally body of relay_commands (queue_in.put(None); future.result()) is reached from the only
+    suspension point of its protected body (the yield): when the context is left normally ... *)
+Theorem C07_tie_ctx_exit_normal : forall sh tno en th,
+  h_sentinel sh = false -> after_yield (mkT tno en K_ctx) None = Some th ->
+  resume FUEL sh th = RAtGet (hset_sentinel sh true) (mkT tno en K_ctx_wait) [ISentinel].
+Proof. exact ctx_exit_normal. Qed.
+
+(** ... and when the body raised x (thrown into the generator at its yield): same finally, x goes on behind it *)
+Theorem C07_tie_ctx_exit_raising : forall sh tno en th x,
+  h_sentinel sh = false -> after_yield (mkT tno en K_ctx) (Some x) = Some th ->
+  resume FUEL sh th = RAtGet (hset_sentinel sh true) (mkT tno en (K_ctx_wait_raising x)) [ISentinel].
+Proof. exact ctx_exit_raising. Qed.
+
+Theorem C07_tie_ctx_ends : forall sh tno en, h_relay_done sh = true ->
+  (exists th' v, resume FUEL sh (mkT tno en K_ctx_wait) = RAtGet sh th' [] /\ resume FUEL sh th' = RDone sh v []) /\
+  forall x, exists th', resume FUEL sh (mkT tno en (K_ctx_wait_raising x)) = RAtGet sh th' [] /\ resume FUEL sh th' = RDied sh x [].
+Proof. exact ctx_ends. Qed.
+
+(** from ANY reachable state, with the sentinel behind the commands of queue_in, the relay thread
+    relays those commands exactly as the model's Relay does, then takes the sentinel and ends *)
+Theorem C07_tie_relay_drains_and_ends : forall n s m, R s m -> n = List.length (s_in m) ->
+  let s' := relay_n n (with_sentinel s true) in
+  R (with_sentinel s' false) (exec_from m (repeat Relay n)) /\
+  h_in (i_sh s') = [] /\ h_sentinel (i_sh s') = true /\
+  resume FUEL (i_sh s') (i_relay s') = RDone (hset_sentinel (i_sh s') false) VNone [].
+Proof. exact relay_drains_and_ends. Qed.
+
+(** ONE prompt counter per run: PdbInstanceFactory.init creates one PromptFunc; every
+    create_local_trace_func() afterwards hands out a trace function whose stdin leads to it *)
+Theorem C07_tie_one_prompt_func_per_run : forall hook st0,
+  exists pf self st1,
+    wrun WFUEL pif_init_body [("hook"%string, hook)] [] st0 = Some (None, self, st1) /\
+    (forall st, exists v st', wrun WFUEL pif_create_body [] self st = Some (Some v, self, st') /\ prompt_func_of v = Some pf) /\
+    is_prompt_func pf = true.
+Proof. exact one_prompt_func_per_run. Qed.
+
+Theorem C07_tie_factory_closure : assigned_after_def false factory_body = false.
+Proof. exact factory_closure_reads_earlier_locals. Qed.
 
 (** non-vacuity: the interpreter runs the regenerated code through the examples above *)
 Example C07_tie_example_nonvacuous :
@@ -529,3 +588,11 @@ Print Assumptions C07_tie_main_forwards_iff_open_in_current_run.
 Print Assumptions C07_tie_main_stale_pair_dropped.
 Print Assumptions C07_tie_cleared_before_spawn.
 Print Assumptions C07_tie_queue_in_wiring.
+Print Assumptions C07_tie_main_before_first_run_raises.
+Print Assumptions C07_tie_boot_submits.
+Print Assumptions C07_tie_ctx_exit_normal.
+Print Assumptions C07_tie_ctx_exit_raising.
+Print Assumptions C07_tie_ctx_ends.
+Print Assumptions C07_tie_relay_drains_and_ends.
+Print Assumptions C07_tie_one_prompt_func_per_run.
+Print Assumptions C07_tie_factory_closure.
